@@ -186,7 +186,15 @@ def decode_json_string(ex, items):
 
 
 def run(check, mirror, tier):
+    import os
+    # the request workers are private functions of dmntk-server: a shim (child module, cfg dmntk_verif_srv) runs them natively for the replay
+    mirror.inject("workspace/src/workspace.rs", os.path.join(VERIF, "engines/shims/workspace_dump.rs"), "verif_ws", cfg="dmntk_verif_ws")
+    with open(mirror.path("server/src/server.rs"), "a") as f:
+        f.write('\n#[cfg(dmntk_verif_srv)]\n#[path = "%s"]\npub mod verif_srv;\n' % os.path.join(VERIF, "engines/shims/server_ops.rs"))
+    with open(mirror.path("server/src/lib.rs"), "a") as f:
+        f.write('\n#[cfg(dmntk_verif_srv)]\npub use server::verif_srv::verif_server_ops;\n')
     rb = replay_build(mirror)
+    rb_srv = replay_build(mirror, extra_cfg="--cfg dmntk_verif_ws --cfg dmntk_verif_srv", crate="replay_server", binary="dmntk-replay-server")
     crate = MirCrate(mirror, ["feel"], overflow_checks=True, enum_crates=("common", "feel-number", "feel"))
     U = fv.Universe(mirror)
     N = 3 if tier == "quick" else 4
@@ -274,6 +282,70 @@ def run(check, mirror, tier):
                                                                           z3.Implies(z3.And(z3.Not(v["is_null"]), z3.Not(v["b"])), z3.BoolVal(txt == "false"))))]
     jobs.append(lambda c: decide(c, crate, "json/literals", setup_lit, post_lit, None, rb, models=JSON_MODELS, min_paths=3,
                                  describe=lambda m, v: {k: model_value(m, x) for k, x in v.items()}, known_predicates=KNOWN_PRED))
+    # --- every other kind of value a decision can return: temporal values, ranges, functions --------------------------------------
+    KINDS = {"Date": 'date("2021-10-03")', "Time": 'time("12:00:00")', "DateTime": 'date and time("2021-10-03T12:00:00")',
+             "DaysAndTimeDuration": 'duration("P1DT2H")', "YearsAndMonthsDuration": 'duration("P1Y2M")'}
+    check.bounds.append("json/kinds: Value::jsonify on date, time, date-and-time and duration values whose FEEL text is a sequence of 1..%d symbolic characters" % N)
+
+    def mk_kind(kind):
+        def setup(ex, st):
+            s, n, cps = cs.fresh_string(ex, st, "text", N)
+            ex.assume(st, n >= 1)
+            # the payload stands for "a value whose Display text is the character sequence s"
+            v = En("Value", z3.IntVal(U.idx(kind)), {kind: (s,)})
+
+            def m_display(ex, st, callee, args, dest_ty):
+                f = args[1]
+                cur = deref(ex, st, f)
+                ex.write(st, f.cell, f.projs, Opaque("Formatter", info=tuple(cur.info) + (("arg", "display", s, {}),)))
+                yield st, En("Result", z3.IntVal(0), {"Ok": (UNIT,)})
+
+            def runner(ex, st):
+                ex.models[:0] = [(R(r"^<(dmntk_feel::values::)?Value as (std::fmt::)?Display>::fmt$"), m_display),
+                                 (R(r"^<(dmntk_feel::values::)?Value as ToString>::to_string$"), lambda ex, st, c, a, d: iter([(st, s)]))]
+                yield from ex.run("<Value as Jsonify>::jsonify", [Ref(ex.new_cell(st, v, "value"))], st)
+            return runner, None, dict(n=n, _cps=cps, kind=kind)
+
+        def post_kind(ex, o, v):
+            out = o.value
+            if not isinstance(out, StrV):
+                return [("the rendering is a string", z3.BoolVal(False))]
+            try:
+                items = _seq_items(ex, o.st, out)
+            except MirUnsupported:
+                return [("the rendering has a definite shape on every path", z3.BoolVal(False))]
+            dec = decode_json_string(ex, items)
+            if ex.check() != z3.sat:
+                return []
+            n = ex.solver.model().eval(v["n"], model_completion=True).as_long()
+            if dec is None:
+                return [("the rendering of a %s value is a JSON value: a string holding its FEEL text" % kind, z3.BoolVal(False))]
+            chars, conds = dec
+            return [("no quotation mark, reverse solidus or control character appears unescaped", z3.And(conds + [z3.BoolVal(True)])),
+                    ("the JSON string decodes to exactly the text of the value",
+                     z3.And([v["n"] == n, z3.BoolVal(len(chars) == n)] + [c == v["_cps"][j].e for j, c in enumerate(chars[:n])] if len(chars) == n else [z3.BoolVal(False)]))]
+
+        def replay_kind(i, rb):
+            notes, bad = [], False
+            for expr in (KINDS[kind], "[%s]" % KINDS[kind], "{a: %s}" % KINDS[kind]):
+                _, out, _ = replay_call(rb, ["jsonify", expr])
+                if not out.startswith("JSON "):
+                    notes.append("%s: replay failed %s" % (expr, out[:60]))
+                    continue
+                txt = bytes.fromhex(out[5:].strip()).decode("utf-8", "replace")
+                try:
+                    json.loads(txt)
+                    notes.append("%s renders as %s" % (expr, txt[:60]))
+                except Exception as e:
+                    bad = True
+                    notes.append("%s renders as %s, which is not valid JSON (%s)" % (expr, txt[:70], str(e)[:40]))
+            return bad, "; ".join(notes)
+        jobs.append(lambda c: decide(c, crate, "json/kinds/" + kind, setup, post_kind, replay_kind, rb, models=JSON_MODELS, unwind=4 * N + 8,
+                                     describe=lambda m, v: {"kind": kind, "text": [model_value(m, c.e) for c in v["_cps"][:model_value(m, v["n"])]]}, max_cex=1, budget_s=600))
+    for kind in KINDS:
+        mk_kind(kind)
+    from checks import C18_handlers
+    C18_handlers.jobs_for(check, mirror, rb_srv, jobs)
     run_parallel(check, jobs)
 
 
